@@ -445,6 +445,39 @@ def gen_args_case(rng: random.Random) -> Dict[str, Any]:
     return {"spec": spec, "options": options, "features": feats, "links_set": links_set, "filters": filters, "calls": calls}
 
 
+def witness_cases() -> List[Dict[str, Any]]:
+    """The witnesses of the two known findings (run first on every check)."""
+    spec = {"groups": [
+        {"name": "R0", "kind": "root", "cfw": "PyArrowTable", "cols": {"a": [1, 2, 3], "b": [10, 20, 30], "k": [1, 2, 3]}},
+        {"name": "R1", "kind": "root", "cfw": "PyArrowTable", "cols": {"c": [5, 6, 7], "d": [1, 1, 1], "j": [1, 2, 3]}},
+        {"name": "D1", "kind": "derived", "cfw": "PyArrowTable",
+         "features": {"f1": {"inputs": ["a", "b"], "c0": 0, "coefs": [1, 1]}, "f2": {"inputs": ["f1", "a"], "c0": 1, "coefs": [1, 2]}}},
+        {"name": "D2", "kind": "derived", "cfw": "PyArrowTable", "features": {"g1": {"inputs": ["a", "c"], "c0": 0, "coefs": [1, 1]}}}],
+        "request": []}
+
+    def call(feats: List[int], links: bool, flt: bool) -> Dict[str, Any]:
+        return {"feats": feats, "copy": True, "strict": False, "api": 0, "links": links, "filter": flt, "kind": "run_all"}
+    opts = [{"group": {"x": 1}, "context": {}}, {"group": {"x": 2}, "context": {}}, {"group": {}, "context": {}}]
+    fb = [{"name": "b", "type": "min", "param": {"value": 20}, "opts": {}}]
+
+    def feat(name: str, opt: int, link: Optional[int] = None) -> Dict[str, Any]:
+        return {"name": name, "opt": opt, "dtype": None, "link": link}
+    return [
+        # call 1 [b{x:1}], call 2 [a{x:2}] with the same GlobalFilter (filter_reuse_refuted)
+        {"spec": spec, "options": opts, "features": [feat("b", 0), feat("a", 1)], "links_set": None, "filters": fb,
+         "calls": [call([0], False, True), call([1], False, True)]},
+        # design witness: [a{x:1}], then [a{x:2}, b{x:2}]; and a third call that makes the first session's plan change
+        {"spec": spec, "options": opts, "features": [feat("a", 0), feat("a", 1), feat("b", 1)], "links_set": None, "filters": fb,
+         "calls": [call([0], False, True), call([1, 2], False, True), call([1], False, True)]},
+        # a requested feature carries a Link; the caller's (empty) set grows; g1 then joins only with the shared set
+        {"spec": spec, "options": opts, "features": [feat("a", 2, 0), feat("g1", 2)], "links_set": [], "filters": [],
+         "calls": [call([0], True, False), call([1], True, False)]},
+        # S = {inner}; a feature carrying left(R0,R1): later calls with S are rejected by LinkValidator
+        {"spec": spec, "options": opts, "features": [feat("a", 2, 1), feat("g1", 2)], "links_set": [0], "filters": [],
+         "calls": [call([0], True, False), call([1], True, False)]},
+    ]
+
+
 class Pool:
     """The caller's argument objects, built from the case description."""
 
@@ -766,8 +799,9 @@ def part_b(rep: vlib.Reporter, tier: str, rng: random.Random) -> bool:
                             "in_kf_filter": 0, "in_kf_links": 0, "api_universes": 0, "with_filter": 0, "with_links": 0,
                             "objects_mutated_calls": 0}
     found = False
-    for _ in range(n):
-        case = gen_args_case(rng)
+    wit = witness_cases()
+    for k in range(n + len(wit)):
+        case = wit[k] if k < len(wit) else gen_args_case(rng)
         if len(case["calls"]) < 2:
             continue
         rec = run_args_case(case)
